@@ -22,6 +22,7 @@ RULE = ("engines with 1-4 input variables (Mamdani and Takagi-Sugeno) x requeste
         "separators x decimals; reader contents with comments, blank lines, indentation and skipped lines. non-trivial: "
         "more than one grid row and at least two inputs, or a reader text with at least one dropped line; distinct = "
         "distinct (engine shape, scope, v, switches)")
+RULE += (" Stream `fld-write` (fv/streams/fld_write.py): the control flow of FldExporter.write on a recording stub engine (ValueError for too few columns, order of restart / assignments / process, stacked blocks, header) against Op.Fld.write.")
 ASSUMPTIONS = ["printed numbers are compared with the exact grid values within half a unit of the last printed decimal",
                "output columns are compared with the engine's own batch results on the same input rows (text equality)"]
 LEVEL_TEXT = ("Lean theorems about the grid enumeration for ANY number of inputs and ANY size: increment_lex_succ (Op.increment "
